@@ -321,7 +321,7 @@ func (p *TopicScoreParams) validateMessageDeliveryParams() error {
 	if (p.FirstMessageDeliveriesWeight != 0 || p.FirstMessageDeliveriesDecay != 0) && (p.FirstMessageDeliveriesDecay <= 0 || p.FirstMessageDeliveriesDecay >= 1 || isInvalidNumber(p.FirstMessageDeliveriesDecay)) {
 		return fmt.Errorf("invalid FirstMessageDeliveriesDecay; must be between 0 and 1")
 	}
-	if isInvalidNumber(p.FirstMessageDeliveriesCap) || p.FirstMessageDeliveriesWeight != 0 && p.FirstMessageDeliveriesCap <= 0 {
+	if isInvalidNumber(p.FirstMessageDeliveriesCap) || p.FirstMessageDeliveriesCap < 0 || p.FirstMessageDeliveriesWeight != 0 && p.FirstMessageDeliveriesCap <= 0 {
 		return fmt.Errorf("invalid FirstMessageDeliveriesCap; must be positive and a valid number")
 	}
 
@@ -351,7 +351,7 @@ func (p *TopicScoreParams) validateMeshMessageDeliveryParams() error {
 	if (p.MeshMessageDeliveriesWeight != 0 || p.MeshMessageDeliveriesDecay != 0) && (p.MeshMessageDeliveriesDecay <= 0 || p.MeshMessageDeliveriesDecay >= 1 || isInvalidNumber(p.MeshMessageDeliveriesDecay)) {
 		return fmt.Errorf("invalid MeshMessageDeliveriesDecay; must be between 0 and 1")
 	}
-	if isInvalidNumber(p.MeshMessageDeliveriesCap) || p.MeshMessageDeliveriesWeight != 0 && p.MeshMessageDeliveriesCap <= 0 {
+	if isInvalidNumber(p.MeshMessageDeliveriesCap) || p.MeshMessageDeliveriesCap < 0 || p.MeshMessageDeliveriesWeight != 0 && p.MeshMessageDeliveriesCap <= 0 {
 		return fmt.Errorf("invalid MeshMessageDeliveriesCap; must be positive and a valid number")
 	}
 	if isInvalidNumber(p.MeshMessageDeliveriesThreshold) || p.MeshMessageDeliveriesWeight != 0 && p.MeshMessageDeliveriesThreshold <= 0 {
